@@ -114,7 +114,7 @@ def _read_rank_files(prefix, nranks):
     return out
 
 
-def run_batch(ctx, exe, lines, tag, threads=2, sched="lfq", nranks=1, timeout=600, max_restarts=4, env=None):
+def run_batch(ctx, exe, lines, tag, threads=2, sched="lfq", nranks=1, timeout=600, max_restarts=4, env=None, confirm=True):
     """Run the program lines (one driver process, or one mpiexec launch, for the whole batch; restarted after a
     crashing program).  Returns a list of Exec, one per line that was started."""
     cfg = {"sched": sched, "threads": threads, "ranks": nranks}
@@ -150,7 +150,7 @@ def run_batch(ctx, exe, lines, tag, threads=2, sched="lfq", nranks=1, timeout=60
                 kinds = [ev.get("e") for pr in ex.per_rank for ev in pr if ev.get("e") in ("Crash", "Timeout")]
                 ex.failed = kinds[0] if kinds else ("Timeout" if rc == "timeout" else "Crash")
                 ex.cfg = dict(cfg, rc=str(rc), stderr=se[-400:])
-                if not tag.endswith("_confirm"):
+                if confirm and not tag.endswith("_confirm"):
                     # DESIGN 1.4: a crash / hang of the real code is reported only when a rerun of the same program in
                     # the same configuration repeats it; an unrepeatable one is counted and shown, never a verdict
                     again = run_batch(ctx, exe, [lines[skip + k]], tag + "_a%d_confirm" % attempt, threads=threads, sched=sched,
@@ -212,11 +212,26 @@ def has_dup(line):
     return False
 
 
-def validate(ctx, module, execs, to_events, what, batch=300, key=None):
+def validate(ctx, module, execs, to_events, what, batch=300, key=None, known_of=None):
     """Trace-validate executions; returns number of violations reported.  key: known-finding key for programs of
-    the class `key` describes (decided by the caller through key(exec, failure))."""
+    the class `key` describes (decided by the caller through key(exec, failure)).  known_of(exec): the execution belongs
+    to a listed known-finding class: those are validated apart and the search stops at the first rejected one (it is
+    printed as KNOWN-FINDING once; locating every one of them costs a TLC start per probe)."""
     if not execs:
         return 0
+    if known_of is not None:
+        a = [x for x in execs if not known_of(x)]
+        b = [x for x in execs if known_of(x)]
+        n = validate(ctx, module, a, to_events, what, batch=batch, key=key)
+        if b:
+            evl = [to_events(x) for x in b]
+            for f in ctx.validate("DTD", module, module + ".cfg", evl, batch=batch, timeout=1200, max_failures=1):
+                x = b[f.index]
+                ctx.violation("%s: %s" % (what, json.dumps({"program": x.line, "config": x.cfg, "detail": f.describe()})[:1800]),
+                              {"module": module, "events": f.execution, "program": x.line, "config": x.cfg, "detail": f.describe()},
+                              key=key(x, f) if key else None)
+                n += 1
+        return n
     evl = [to_events(x) for x in execs]
     fails = ctx.validate("DTD", module, module + ".cfg", evl, batch=batch, timeout=1200)
     for f in fails:
@@ -284,15 +299,19 @@ def run(ctx):
     # one datum in several parameters of a task (kept apart: on a tree without fixes/dtd-same-tile-several-params.diff
     # most of these crash or hang, every failure costs a restart of the driver)
     dsingle = []
-    for k, (s, t) in enumerate(configs[:2] if ctx.quick else configs[:8]):
-        dsingle += run_batch(ctx, exe, lines_for(dups, WINDOWS, rot=k, sp=(30, 120)), "d_%s_%d" % (s, t), threads=t, sched=s,
-                             timeout=900, max_restarts=len(dups), env={"VERIF_ALARM": "10"})
+    # (quick: 4 of these programs under one configuration and a 4 s alarm: they are the known-finding class, each hang
+    #  costs its alarm)
+    dq = dups[:4] if ctx.quick else dups
+    for k, (s, t) in enumerate(configs[:1] if ctx.quick else configs[:8]):
+        dsingle += run_batch(ctx, exe, lines_for(dq, WINDOWS, rot=k, sp=(30, 120)), "d_%s_%d" % (s, t), threads=t, sched=s,
+                             timeout=900, max_restarts=len(dq), env={"VERIF_ALARM": "4" if ctx.quick else "10"}, confirm=False)
     dupkey = lambda x, f: KEY_DUP if has_dup(x.line) else None
     nv = validate(ctx, "SeqTrace", single + dsingle, single_events,
-                  "one-process DTD execution is not a behaviour of Seq.tla (values / ordering)", key=dupkey)
+                  "one-process DTD execution is not a behaviour of Seq.tla (values / ordering)", key=dupkey,
+                  known_of=lambda x: has_dup(x.line))
     # ---- several processes: values only ------------------------------------------------------------------------------
     multi = []
-    mp = (progs[:20] + dups[:4]) if ctx.quick else (progs[:400] + dups[:60])
+    mp = (progs[:20] + dups[:2]) if ctx.quick else (progs[:400] + dups[:60])
     for nr in ([2, 3] if ctx.quick else [2, 3, 4]):
         s, t = [c for c in configs if c[0] != "ll"][nr % 3]      # ll ping-pongs a re-queued writer between two threads
         # every other pair of programs: tiles 4 ints wide under the second attached arena datatype (id 1)
@@ -301,7 +320,8 @@ def run(ctx):
                            threads=max(2, t), sched=s, nranks=nr, timeout=900, max_restarts=len(dups),
                            env={"VERIF_ALARM": "30"})
     nv += validate(ctx, "SeqTraceValues", multi, merged_events,
-                   "multi-process DTD execution does not produce the sequential values", key=dupkey)
+                   "multi-process DTD execution does not produce the sequential values", key=dupkey,
+                   known_of=lambda x: has_dup(x.line))
     ctx.evaluations = len(single) + len(dsingle) + len(multi)
     ctx.extra["executions_single"] = len(single) + len(dsingle)
     ctx.extra["executions_multi"] = len(multi)
